@@ -2,7 +2,10 @@
 //!
 //! Everything here is observation only: thread-local counters and logs that
 //! the interpreter bumps at a few call sites so an external harness can tell
-//! which reclamation and pruning events a run actually exercised.
+//! which reclamation and pruning events a run actually exercised. The one
+//! exception is the optional work budget ([`set_work_budget`]): a harness that
+//! knows how much work a program needs can make a run that does not stop end
+//! with a recognisable panic instead of waiting for a wall-clock watchdog.
 
 use std::cell::{Cell, RefCell};
 
@@ -15,7 +18,12 @@ thread_local! {
     static EXECUTED_STMTS: RefCell<Vec<u32>> = const { RefCell::new(Vec::new()) };
     static SKIPPED_STMT_IDS: RefCell<Vec<u32>> = const { RefCell::new(Vec::new()) };
     static LOG_STMTS: Cell<bool> = const { Cell::new(false) };
+    static WORK_DONE: Cell<u64> = const { Cell::new(0) };
+    static WORK_BUDGET: Cell<u64> = const { Cell::new(u64::MAX) };
 }
+
+/// Message of the panic raised when the work budget is exceeded.
+pub const WORK_BUDGET_EXCEEDED: &str = "verif: work budget exceeded";
 
 /// Snapshot of the event counters.
 #[derive(Debug, Clone, Copy, Default, PartialEq, Eq)]
@@ -37,6 +45,32 @@ pub fn reset(log_stmts: bool) {
     EXECUTED_STMTS.with_borrow_mut(Vec::clear);
     SKIPPED_STMT_IDS.with_borrow_mut(Vec::clear);
     LOG_STMTS.set(log_stmts);
+    WORK_DONE.set(0);
+    WORK_BUDGET.set(u64::MAX);
+}
+
+/// Limits the work (executed statements + loop iterations) of the runs that follow on this
+/// thread, until the next [`reset`]. Exceeding it panics with [`WORK_BUDGET_EXCEEDED`].
+pub fn set_work_budget(units: u64) {
+    WORK_BUDGET.set(units);
+}
+
+/// Executed statements + loop iterations since the last [`reset`].
+#[must_use]
+pub fn work_done() -> u64 {
+    WORK_DONE.get()
+}
+
+#[inline]
+fn work() {
+    let done = WORK_DONE.get() + 1;
+    WORK_DONE.set(done);
+    assert!(done <= WORK_BUDGET.get(), "{WORK_BUDGET_EXCEEDED}");
+}
+
+#[inline]
+pub(crate) fn on_loop_iteration() {
+    work();
 }
 
 #[must_use]
@@ -95,6 +129,7 @@ pub(crate) fn on_stmt_skipped(id: Option<u32>) {
 
 #[inline]
 pub(crate) fn on_stmt_executed(id: Option<u32>) {
+    work();
     if LOG_STMTS.get()
         && let Some(id) = id
     {
